@@ -28,6 +28,7 @@ def cases(tier):
         for rg in range(2):
             cs.append(dict(name=f"graph_h{ih}_rg{rg}", fn="graph", args=dict(tier=tier), prefix=[ih, rg], weight=5))
     cs.append(dict(name="multi_output_op", fn="multi", args=dict(tier=tier), weight=2))
+    cs.append(dict(name="three_outputs_mixed_rank", fn="three", args=dict(tier=tier), weight=2))
     for k in range(4):
         cs.append(dict(name=f"single_output_container{k}", fn="single", args=dict(tier=tier), prefix=[k], weight=2))
     return cs
@@ -155,6 +156,26 @@ def case_graph(sp, tier):
         old["c"] = set_grad(prog["c"], "c")
     A = AStar()
     return _run_and_finish(sp, prog, spec, outs, ins, A, old, dict(chunk=k, hash_order=list(hp)),
+                           lambda: backward([prog[n] for n in outs], A, inputs=[prog[n] for n in ins], parallel_chunk_size=k))
+
+
+def case_three(sp, tier):
+    """three outputs of mixed rank in every listing order (scalar, vector, scalar ...) and three inputs"""
+    set_kernels()
+    shapes = [[(), (2,), ()], [(2,), (), ()], [(), (), (2,)], [(), (1,), ()], [(1, 2), (), (2,)]][choice(5, "output_shapes")]
+    spec = dict(leaves=[("a", (2,), True), ("b", (), True), ("c", (1, 2), True)],
+                ops=[dict(name="f1", inputs=["a", "b"], outs=[("y1", shapes[0])], deps={(0, 0), (0, 1)}),
+                     dict(name="f2", inputs=["a", "c"], outs=[("y2", shapes[1])], deps={(0, 0), (0, 1)}),
+                     dict(name="f3", inputs=["a", "b", "c"], outs=[("y3", shapes[2])], deps={(0, 0), (0, 1), (0, 2)})])
+    order = perms(3)[choice(6, "listing_order")]
+    outs = [["y1", "y2", "y3"][i] for i in order]
+    iorder = perms(3)[choice(6, "input_order")]
+    ins = [["a", "b", "c"][i] for i in iorder]
+    prog = Prog(spec, ranks={"a": 0, "b": 1, "c": 2, "y1": 10, "y2": 11, "y3": 12})
+    k = [None, 2][choice(2, "chunk")]
+    old = {"a": set_grad(prog["a"], "a"), "b": None, "c": None}
+    A = AStar()
+    return _run_and_finish(sp, prog, spec, outs, ins, A, old, dict(chunk=k, hash_order=0),
                            lambda: backward([prog[n] for n in outs], A, inputs=[prog[n] for n in ins], parallel_chunk_size=k))
 
 
